@@ -8,7 +8,7 @@ RULE = ('cases = histories over key graphs built by init/add-key (shared, clone,
         'end the full unlock matrix key x password plus mangled passwords; lifted state compared with Model/Repo.exec; non-trivial = >= 3 commands of >= 2 kinds')
 WEIGHTS = {'snapshot': 4, 'repeat': 1, 'delete': 2, 'delete_foreign': 4, 'clean': 3, 'observe': 4, 'orphans': 1.5}
 CHECKS = {'access', 'frame', 'restore'}
-MINE = ('visibility', 'details', 'file_list_foreign', 'restore_foreign', 'restore_foreign_crash', 'delete_foreign_succeeded', 'delete_foreign_crash', 'refused_delete_mutated', 'unlock', 'unlock_crash', 'gc_overreach', 'referenced_chunk_missing', 'restore_mismatch', 'exception')
+MINE = ('visibility', 'details', 'file_list_foreign', 'restore_foreign', 'restore_foreign_crash', 'delete_foreign_succeeded', 'delete_foreign_crash', 'refused_delete_mutated', 'unlock', 'unlock_trailing_nul', 'unlock_crash', 'gc_overreach', 'referenced_chunk_missing', 'restore_mismatch', 'exception')
 
 
 CLI_MINE = ('snapshot_not_listed', 'exception', 'hang', 'snapshot_unreadable', 'snapshot_objects', 'snapshot_name', 'visibility', 'details', 'file_list_foreign', 'restore_foreign', 'restore_foreign_crash', 'delete_foreign_succeeded', 'refused_delete_mutated', 'shared_secrets_differ', 'independent_secrets_equal', 'key_unusable', 'gc_overreach')
